@@ -478,6 +478,81 @@ class C02(AstKindProp):
         names = {n: {"absent", "default"} for n, p, _ in _entries(c["ir"]) if p.get("typ") == "dict"}
         return [("C02-dict-typed-attribute", names, set())] if names else []
 
+    # statement-level tie (ClassAttr.lean): param2ast, and the attribute branch of parse.class_ + _infer_default
+    def corr(self, c, run):
+        res = AstKindProp.corr(self, c, run)
+        from doctrans import ast_utils, parse
+
+        from .common import val_of_json, val_to_json
+
+        for n, p, _ in _entries(c["ir"]):
+            q = {k: v for k, v in p.items() if k != "default"}
+            if "default" in p:
+                q["default"] = val_of_json(p["default"])
+            node = None
+            try:
+                node = ast_utils.param2ast((n, copy.deepcopy(q)))
+                impl = {"ok": _canon_attr(_attr_json(node))}
+            except Exception as e:
+                impl = {"raises": exc_kind(e)}
+            res.append(("param2ast", {"op": "param2ast", "param": p}, impl))
+            if node is None or n == "return_type":
+                continue  # (the return entry does not go through `_set_name_and_type`)
+            try:
+                # what the class parser sees: the statement after unparse / re-parse
+                stmt = ast.parse(ast.unparse(ast.fix_missing_locations(ast.Module(body=[node], type_ignores=[])))).body[0]
+                cls = ast.ClassDef(name="ConfigClass", bases=[], keywords=[], body=[stmt], decorator_list=[], type_params=[])
+                back = parse.class_(ast.fix_missing_locations(cls))["params"][n]
+                impl2 = {"ok": {"typ": _canon_type(back.get("typ")), "default": canon_val(val_to_json(back["default"])) if "default" in back else None}}
+            except Exception as e:
+                impl2 = {"raises": exc_kind(e)}
+            a = _attr_json(stmt) if node is not None else None
+            op = {"op": "class_attr", "ann": a["ann"]}
+            if isinstance(a["value"], dict):
+                op.update(a["value"])
+            res.append(("class_attr", op, impl2))
+        return res
+
+    def canon_model(self, layer, op, ans):
+        if layer == "param2ast" and "ok" in ans:
+            return {"ok": _canon_attr(ans["ok"])}
+        if layer == "class_attr" and "ok" in ans:
+            o = ans["ok"]
+            return {"ok": {"typ": _canon_type(o.get("typ")), "default": canon_val(o.get("default"))}}
+        return AstKindProp.canon_model(self, layer, op, ans)
+
+
+def _canon_type(t):
+    if t is None:
+        return None
+    try:
+        return ast.unparse(ast.parse(t, mode="eval").body)
+    except SyntaxError:
+        return t
+
+
+def _attr_json(node):
+    """`name: ann = value` -> {"ann": text, "value": {"const": v} | {"expr": text} | "dict"}"""
+    from .common import val_to_json
+
+    v = node.value
+    if isinstance(v, ast.UnaryOp) and isinstance(v.op, (ast.USub, ast.UAdd)) and isinstance(v.operand, ast.Constant) and isinstance(v.operand.value, (int, float)) and not isinstance(v.operand.value, bool):
+        v = ast.Constant(-v.operand.value if isinstance(v.op, ast.USub) else v.operand.value)
+    if isinstance(v, ast.Constant):
+        val = {"const": val_to_json(v.value)}
+    elif isinstance(v, ast.Dict) and not v.keys:
+        val = "dict"
+    else:
+        val = {"expr": ast.unparse(v)}
+    return {"ann": ast.unparse(node.annotation), "value": val}
+
+
+def _canon_attr(a):
+    v = a["value"]
+    if isinstance(v, dict) and "const" in v:
+        v = {"const": canon_val(v["const"])}
+    return {"ann": _canon_type(a["ann"]), "value": v}
+
 
 class C03(AstKindProp):
     id = "C03"
